@@ -12,7 +12,8 @@ import string
 
 from ..flow import flow_of, path_of
 from ..loader import FUNC, AnalysisError, const_fold, dotted, last_name, loc, short, walk_local
-from ..util import ASE, CP2K, ENGPARTS, GROMACS, LAMMPS, TURTLE, kwarg
+from ..cfg import cfg_of
+from ..util import ASE, CP2K, ENGPARTS, GROMACS, LAMMPS, TURTLE, kwarg, loops_of
 from ..variants import B, K
 
 EXPLANATION = (
@@ -529,8 +530,133 @@ def r196(ctx):
         ctx.ok(rid, diag[0], "3-component form = (xx, yy, zz)")
 
 
+def _lin_names(e):
+    """Linear/bilinear form over names: {frozenset(names): coeff, frozenset(): const}."""
+    if isinstance(e, ast.Constant) and isinstance(e.value, int) and not isinstance(e.value, bool):
+        return {frozenset(): e.value}
+    if isinstance(e, ast.Name):
+        return {frozenset([e.id]): 1}
+    if isinstance(e, ast.BinOp) and isinstance(e.op, (ast.Add, ast.Sub)):
+        a, b = _lin_names(e.left), _lin_names(e.right)
+        if a is None or b is None:
+            return None
+        out = dict(a)
+        for k, v in b.items():
+            out[k] = out.get(k, 0) + (v if isinstance(e.op, ast.Add) else -v)
+        return {k: v for k, v in out.items() if v != 0}
+    if isinstance(e, ast.BinOp) and isinstance(e.op, ast.Mult):
+        a, b = _lin_names(e.left), _lin_names(e.right)
+        if a is None or b is None:
+            return None
+        out = {}
+        for k1, v1 in a.items():
+            for k2, v2 in b.items():
+                if k1 & k2:
+                    return None
+                out[k1 | k2] = out.get(k1 | k2, 0) + v1 * v2
+        return {k: v for k, v in out.items() if v != 0}
+    return None
+
+
+def r199(ctx):
+    """Extracting frame k of a multi-frame file returns frame k: every _extract_frame selects
+    with its own `idx` parameter, unmodified; read_lammpstrj addresses both of its blocks at
+    block_size * frame; read_trr_frame counts from 0 and tests before it increments."""
+    rid = "R-19.9"
+    tree = ctx.tree
+    n = 0
+    for rel in (GROMACS, CP2K, LAMMPS, TURTLE, ASE):
+        for m, q, f in tree.all_funcs([rel]):
+            if f.name != "_extract_frame":
+                continue
+            params = [a.arg for a in f.args.args]
+            if len(params) < 3:
+                raise AnalysisError(f"R-19.9: {q} does not take (self, traj_file, idx, out_file)")
+            tf, idx = params[1], params[2]
+            fl = flow_of(f)
+            sel = []
+            for x in walk_local(f):
+                # (a) enumerate(...) index compared with idx
+                if isinstance(x, ast.Compare) and len(x.ops) == 1 and isinstance(x.ops[0], ast.Eq):
+                    sides = [x.left, x.comparators[0]]
+                    if any(isinstance(s_, ast.Name) and s_.id == idx for s_ in sides) or any(idx in ast.unparse(s_) for s_ in sides):
+                        other = [s_ for s_ in sides if not (isinstance(s_, ast.Name) and s_.id == idx)]
+                        sel.append(("cmp", x, other[0] if other else None))
+                # (b) reader call receiving the frame number
+                if isinstance(x, ast.Call) and last_name(x) in ("read_lammpstrj", "read_trr_frame") and len(x.args) >= 2:
+                    sel.append(("call", x, x.args[1]))
+                # (c) subscript of a trajectory object
+                if isinstance(x, ast.Subscript) and isinstance(x.ctx, ast.Load) and not isinstance(x.slice, (ast.Slice, ast.Tuple, ast.Constant)) and idx in ast.unparse(x.slice):
+                    sel.append(("sub", x, x.slice))
+            if not sel:
+                ctx.bad(rid, f, f"{q} never uses its frame number `{idx}` to select a frame", construct=f"{q}: idx unused")
+                continue
+            for kind, node, e in sel:
+                n += 1
+                if kind == "cmp":
+                    # i == idx with i the enumerate index of a loop over the trajectory file
+                    L = next((p for p in loops_of(node) if isinstance(p, ast.For)), None)
+                    ok_ = (isinstance(e, ast.Name) and L is not None and isinstance(L.iter, ast.Call) and last_name(L.iter) == "enumerate" and len(L.iter.args) == 1
+                           and isinstance(L.target, ast.Tuple) and isinstance(L.target.elts[0], ast.Name) and L.target.elts[0].id == e.id
+                           and ast.unparse(node) in (f"{e.id} == {idx}", f"{idx} == {e.id}"))
+                else:
+                    ok_ = isinstance(e, ast.Name) and e.id == idx and not any(isinstance(d.stmt, (ast.Assign, ast.AugAssign)) for d, _ in fl.rd(idx, fl.cfg.node_of(node)))
+                if ok_:
+                    ctx.ok(rid, node, f"{q}: the frame is selected with the unmodified frame number `{idx}` ({kind})")
+                else:
+                    ctx.bad(rid, node, f"{q}: the frame is selected with `{short(e, 30) if e is not None else '?'}` (in `{short(node, 50)}`), not with the frame number it was asked for (counted from 0 by enumerate): another frame than frame k is extracted", construct=f"{q}: frame selector {short(node, 50)}")
+    if n < 5:
+        raise AnalysisError(f"R-19.9: only {n} frame selectors found in the _extract_frame implementations (expected 5)")
+    # read_lammpstrj: both blocks addressed at block_size * frame
+    rl = tree.func(LAMMPS, "read_lammpstrj")
+    fr = [a.arg for a in rl.args.args][1]
+    forms = []
+    for c in [x for x in walk_local(rl) if isinstance(x, ast.Call) and last_name(x) == "genfromtxt"]:
+        sh = kwarg(c, "skip_header")
+        lf = _lin_names(sh) if sh is not None else None
+        if lf is None:
+            raise AnalysisError("R-19.9: skip_header of read_lammpstrj is not a linear form")
+        forms.append((c, lf))
+    if len(forms) != 2:
+        raise AnalysisError(f"R-19.9: read_lammpstrj has {len(forms)} genfromtxt calls (expected 2: box, atoms)")
+    for c, lf in forms:
+        fterms = {k: v for k, v in lf.items() if fr in k}
+        if len(fterms) == 1 and list(fterms.values())[0] == 1 and len(next(iter(fterms))) == 2:
+            ctx.ok(rid, c, f"read_lammpstrj: block addressed at {'*'.join(sorted(next(iter(fterms))))} + {lf.get(frozenset(), 0)}")
+        else:
+            ctx.bad(rid, c, f"read_lammpstrj: skip_header `{short(kwarg(c, 'skip_header'), 40)}` is not <block size> * {fr} + <offset>: frame k of a multi-frame dump is not the one read", construct="read_lammpstrj skip_header " + short(kwarg(c, "skip_header"), 40))
+    bases = {frozenset(k) for c, lf in forms for k in lf if fr in k}
+    if len(bases) > 1:
+        ctx.bad(rid, forms[1][0], "read_lammpstrj addresses its box block and its atom block with different frame strides: box and coordinates come from different frames", construct="read_lammpstrj stride disagreement")
+    # read_trr_frame: counter from 0, test before increment
+    rt = tree.func(GROMACS, "read_trr_frame")
+    ip = [a.arg for a in rt.args.args][1]
+    cnt = None
+    for st in rt.body:
+        if isinstance(st, ast.Assign) and isinstance(st.targets[0], ast.Name) and isinstance(st.value, ast.Constant) and isinstance(st.value.value, int):
+            cnt = (st.targets[0].id, st.value.value, st)
+    if cnt is None:
+        raise AnalysisError("R-19.9: frame counter of read_trr_frame not found")
+    cname, c0, cst = cnt
+    cfg = cfg_of(rt)
+    tests = [x for x in walk_local(rt) if isinstance(x, ast.Compare) and ast.unparse(x) in (f"{cname} == {ip}", f"{ip} == {cname}")]
+    incs = [x for x in walk_local(rt) if isinstance(x, ast.AugAssign) and isinstance(x.target, ast.Name) and x.target.id == cname]
+    reads = [x for x in walk_local(rt) if isinstance(x, ast.Call) and last_name(x) == "read_trr_data"]
+    good = (c0 == 0 and len(tests) == 1 and len(incs) == 1 and isinstance(incs[0].op, ast.Add) and isinstance(incs[0].value, ast.Constant) and incs[0].value.value == 1
+            and reads and cfg.reaches(cfg.node_of(tests[0]), cfg.node_of(incs[0])) and tests[0].lineno < incs[0].lineno)
+    if good:
+        # the data read is under the test
+        g = [ast.unparse(e) for e, t, _ in cfg.guards(cfg.node_of(reads[0])) if t]
+        good = any(ast.unparse(tests[0]) == x for x in g)
+    if good:
+        ctx.ok(rid, tests[0], "read_trr_frame: counter starts at 0, the frame is read when counter == index, the counter advances by one per skipped frame after the test")
+    else:
+        ctx.bad(rid, cst, "read_trr_frame does not count frames from 0 with the test before the increment (start value, comparison or increment changed): frame k is not the k-th frame of the file", construct="read_trr_frame frame counter")
+
+
 def run(ctx):
     ctx.rule("R-19.6", "the flattened box matrix has the element order of the g96 BOX record (folded from the source, comprehensions included)", floor=1)
+    ctx.rule("R-19.9", "extracting frame k returns frame k: every _extract_frame selects with its unmodified frame number; read_lammpstrj strides by the block size; read_trr_frame counts from 0 and tests before incrementing", floor=8)
     ctx.rule("R-19.8", "the multi-frame readers return each frame with its own arrays (a buffer handed out is re-allocated before it is written again): frame k is frame k", floor=3)
     ctx.rule("R-19.7", "positional role agreement in the codecs: (box, xyz, vel, names) / (id_type, pos, vel, box) / (rawdata, xyz, vel, box) are unpacked and passed at the positions where the callee returns / expects them", floor=12)
     ctx.rule("R-19.1", "g96 field widths / counts / prefix agree between writer and reader", floor=4)
@@ -540,6 +666,7 @@ def run(ctx):
     ctx.rule("R-19.5", "reverse-velocity siblings negate velocities and nothing else", floor=5)
     for r in (r191, r192, r193, r194, r195, r196):
         ctx.attempt(r, ctx)
+    ctx.attempt(r199, ctx)
     from .shared import role_agreement, handed_out_buffers
     from .c13 import readers
     for rf in readers(ctx.tree):
@@ -551,6 +678,12 @@ def run(ctx):
 
 
 VARIANTS = [
+    B("c19-cp2k-extract-off-by-one", CP2K, "        for i, snapshot in enumerate(read_xyz_file(traj_file)):\n            if i == idx:\n                box, xyz, vel, names = convert_snapshot(snapshot)\n                if os.path.isfile(out_file):\n                    logger.debug(\"CP2K will overwrite", "        for i, snapshot in enumerate(read_xyz_file(traj_file), 1):\n            if i == idx:\n                box, xyz, vel, names = convert_snapshot(snapshot)\n                if os.path.isfile(out_file):\n                    logger.debug(\"CP2K will overwrite", "R-19.9", control=True),
+    B("c19-lammps-extract-next-frame", LAMMPS, "        id_type, pos, vel, box = read_lammpstrj(traj_file, idx, self.n_atoms)\n        write_lammpstrj(out_file, id_type, pos, vel, box)", "        id_type, pos, vel, box = read_lammpstrj(traj_file, idx + 1, self.n_atoms)\n        write_lammpstrj(out_file, id_type, pos, vel, box)", "R-19.9"),
+    B("c19-ase-extract-from-end", ASE, "        atoms = traj[idx]\n", "        atoms = traj[-idx]\n", "R-19.9"),
+    B("c19-lammps-box-of-previous-frame", LAMMPS, "    box = np.genfromtxt(infile, skip_header=block_size * frame + 5, max_rows=3)", "    box = np.genfromtxt(infile, skip_header=n_atoms * frame + 5, max_rows=3)", "R-19.9"),
+    B("c19-trr-counter-from-one", GROMACS, "    idx = 0\n    with open(filename, \"rb\") as infile:\n        while True:\n            try:\n                header, _ = read_trr_header(infile)\n                if idx == index:", "    idx = 1\n    with open(filename, \"rb\") as infile:\n        while True:\n            try:\n                header, _ = read_trr_header(infile)\n                if idx == index:", "R-19.9"),
+    K("c19-keep-cp2k-extract-flipped-test", CP2K, "        for i, snapshot in enumerate(read_xyz_file(traj_file)):\n            if i == idx:\n                box, xyz, vel, names = convert_snapshot(snapshot)\n                if os.path.isfile(out_file):\n                    logger.debug(\"CP2K will overwrite", "        for i, snapshot in enumerate(read_xyz_file(traj_file)):\n            if idx == i:\n                box, xyz, vel, names = convert_snapshot(snapshot)\n                if os.path.isfile(out_file):\n                    logger.debug(\"CP2K will overwrite"),
     B("c19-ase-reverse-momenta-mixup", ASE, "        vel = atoms.get_velocities()\n        atoms.set_velocities(-vel)\n        write(outfile, atoms)", "        atoms.set_momenta(-atoms.get_velocities())\n        write(outfile, atoms)", "R-19.5", why="seeded C11_c"),
     B("c19-lammps-shared-box-buffer", ENGPARTS, "            coordinate_snapshot = np.zeros((N_atoms, 6), dtype=np.float64)\n            box_snapshot = np.zeros((3, 3), dtype=np.float64)\n    return trajectory, box", "            coordinate_snapshot = np.zeros((N_atoms, 6), dtype=np.float64)\n    return trajectory, box", "R-19.8", control=True, why="seeded C19_c (same idea as C12_a)"),
     B("c19-lammps-reverse-unpack-permuted", LAMMPS, "        id_type, pos, vel, box = read_lammpstrj(filename, 0, self.n_atoms)\n        vel *= -1.0", "        id_type, vel, pos, box = read_lammpstrj(filename, 0, self.n_atoms)\n        vel *= -1.0", "R-19.7", control=True),
